@@ -2,62 +2,83 @@ import BumpVerif.Proofs.StrRetain
 /-!
 # String part of C16: a panicking `retain` closure and UTF-8 validity (F6)
 
-Full statement (what C16 asks of `String::retain`):
+Full statement (what C16 asks of `String::retain`), for the loop with (`guard = true`) or
+without (`guard = false`, the pinned tree) a drop guard that fixes the length on unwind:
 
-    ∀ (l : List Char) (ans : Nat → Bool) (p : Option Nat) (r : RetainOut),
-      retain (encode l) ans p = .ok r → Valid r.bytes
+    RetainPanicSafe guard :=
+      ∀ (l : List Char) (ans : Nat → Bool) (p : Option Nat) (r : RetainOut),
+        retainWith guard (encode l) ans p = .ok r → Valid r.bytes
 
-It is FALSE for the code as it is: `retain` moves kept bytes down while it runs and only
-shortens the vector at the very end, with no guard object; a panic in the closure leaves `len`
-untouched over partly compacted bytes.  Below: the counterexample (the model reproduces the
-bytes the crate leaves: C3 A9 A9 7A), and the part that does hold.
+It is FALSE for the code as it is (`Gen.STR_RETAIN_GUARD = 0`, regenerated from the source):
+`retain` moves kept bytes down while it runs and only shortens the vector at the very end; a
+panic in the closure leaves `len` untouched over partly compacted bytes.  Below: the
+counterexample (the model reproduces the bytes the crate leaves: C3 A9 A9 7A), the part that
+does hold without the guard, and the full statement for the guarded loop of
+`proposed_fixes/F6-string-retain.diff` (so: the property holds iff the guard is there).
 -/
 namespace Bump.Str
 
 /-- C16 for `String::retain`, full strength -/
-def RetainPanicSafe : Prop :=
+def RetainPanicSafe (guard : Bool) : Prop :=
   ∀ (l : List Char) (ans : Nat → Bool) (p : Option Nat) (r : RetainOut),
-    retain (encode l) ans p = .ok r → Valid r.bytes
+    retainWith guard (encode l) ans p = .ok r → Valid r.bytes
 
 /-- the witness: "aéz", delete 'a', keep 'é', panic on 'z' -/
 theorem F6_witness :
-    retain (encode ['a', 'é', 'z']) (ansOf [false, true, true]) (some 2)
+    retainWith false (encode ['a', 'é', 'z']) (ansOf [false, true, true]) (some 2)
       = .ok ⟨[0xC3, 0xA9, 0xA9, 0x7A], true, 3⟩ := by decide
 
 theorem F6_witness_invalid : ¬ Valid [0xC3, 0xA9, 0xA9, 0x7A] := by decide
 
-/-- **The full statement is false on the pinned tree (F6).** -/
-theorem C16_string_retain_valid_counterexample : ¬ RetainPanicSafe := by
+/-- **The full statement is false without the guard (F6).** -/
+theorem C16_string_retain_valid_counterexample : ¬ RetainPanicSafe false := by
   intro h
   exact F6_witness_invalid (h _ _ _ _ F6_witness)
 
-/-- **What holds**: without a panic, with a panic index that is never reached, or with a panic
-before any character was deleted, the string is valid afterwards (and, in the last case,
-unchanged).  Missing for the full statement: a panic after a deletion — there the crate leaves
-invalid bytes. -/
+/-- **What holds without the guard**: no panic, a panic index that is never reached, or a panic
+before any character was deleted leave the string valid (in the last case unchanged).  Missing
+for the full statement: a panic after a deletion — there the crate leaves invalid bytes. -/
 theorem C16_string_retain_valid_partial (l : List Char) (ans : Nat → Bool) (p : Option Nat) (r : RetainOut)
     (hsafe : ∀ k, p = some k → k < l.length → ∀ j, j < k → ans j = true)
-    (h : retain (encode l) ans p = .ok r) : Valid r.bytes := by
+    (h : retainWith false (encode l) ans p = .ok r) : Valid r.bytes := by
   match p, hsafe, h with
   | none, _, h =>
-    rw [retain_spec] at h
+    rw [retainWith_spec] at h
     cases h; exact Valid_encode _
   | some k, hsafe, h =>
     by_cases hk : k < l.length
     · rw [retain_panic_nodel l ans k hk (hsafe k rfl hk)] at h
       cases h; exact Valid_encode _
-    · rw [retain_spec_late_panic l ans k (by omega)] at h
+    · rw [retainWith_spec_late_panic false l ans k (by omega)] at h
       cases h; exact Valid_encode _
 
 /-- the hypotheses of the partial theorem are satisfiable, also with a panic -/
-example : ∃ r, retain (encode ['a', 'é', 'z']) (ansOf [true, true, false]) (some 2) = .ok r ∧ Valid r.bytes :=
+example : ∃ r, retainWith false (encode ['a', 'é', 'z']) (ansOf [true, true, false]) (some 2) = .ok r ∧ Valid r.bytes :=
   ⟨_, rfl, by decide⟩
+
+/-- **With the drop guard the full statement holds**: after a panic at call `p` the string is the
+text kept among the first `p` characters. -/
+theorem C16_string_retain_valid_guarded : RetainPanicSafe true := by
+  intro l ans p r h
+  match p, h with
+  | none, h => rw [retainWith_spec] at h; cases h; exact Valid_encode _
+  | some k, h =>
+    by_cases hk : k < l.length
+    · rw [retain_panic_guarded l ans k hk] at h; cases h; exact Valid_encode _
+    · rw [retainWith_spec_late_panic true l ans k (by omega)] at h; cases h; exact Valid_encode _
+
+/-- the property holds exactly when the guard is present; `retain` of the model is
+`retainWith (Gen.STR_RETAIN_GUARD == 1)` with the flag regenerated from the source -/
+theorem C16_string_retain_iff_guard (guard : Bool) : RetainPanicSafe guard ↔ guard = true := by
+  cases guard
+  · simp only [Bool.false_eq_true, iff_false]; exact C16_string_retain_valid_counterexample
+  · simp only [iff_true]; exact C16_string_retain_valid_guarded
 
 /-- After a panic that leaves valid text, using the string further keeps it valid; dropping it
 touches no text at all (`Vec<u8>` has no element destructors): both continuations of C16. -/
 theorem retain_panic_then_push (l : List Char) (ans : Nat → Bool) (k : Nat) (hk : k < l.length)
     (hall : ∀ j, j < k → ans j = true) (c : Char) :
-    ∃ r, retain (encode l) ans (some k) = .ok r ∧ r.panicked = true ∧ Valid (push r.bytes c) := by
+    ∃ r, retainWith false (encode l) ans (some k) = .ok r ∧ r.panicked = true ∧ Valid (push r.bytes c) := by
   refine ⟨_, retain_panic_nodel l ans k hk hall, rfl, ?_⟩
   rw [push_encode]; exact Valid_encode _
 
@@ -65,5 +86,7 @@ end Bump.Str
 
 #print axioms Bump.Str.C16_string_retain_valid_counterexample
 #print axioms Bump.Str.C16_string_retain_valid_partial
+#print axioms Bump.Str.C16_string_retain_valid_guarded
+#print axioms Bump.Str.C16_string_retain_iff_guard
 #print axioms Bump.Str.F6_witness
 #print axioms Bump.Str.retain_panic_then_push
